@@ -300,6 +300,9 @@ pub fn run_tree(path: &str, sink: &mut Sink, sample_mod: u64, seed: u64, target:
         if !model["halted"].as_bool().unwrap_or(false) {
             run.apply(sink, &json!({"m":"resume_contract","s":"admin","n":0,"l":0,"r":0}));
         }
+        if model["treasuryContract"].as_bool().unwrap_or(false) {
+            run.apply(sink, &json!({"m":"t_instantiate","s":"admin","admin":"admin","trader":"trader","routes":[]}));
+        }
         let funds = model["funds"].as_u64().unwrap_or(0);
         for u in model["users"].as_array().cloned().unwrap_or_default() {
             run.apply(sink, &json!({"m":"faucet","a":u,"d":"IBCTIA","x":funds}));
